@@ -13,5 +13,7 @@ var registry = map[string]simkit.World{
 	"C02": fsmworld.C02{},
 	"C03": fsmworld.C03{},
 	"C04": fsmworld.C04{},
+	"C05": fsmworld.C05{},
+	"C06": fsmworld.C06{},
 	"C20": archiveworld.World{},
 }
